@@ -56,6 +56,7 @@ StepViol(e, Q2) ==
   (IF BacklogBound(Q2) THEN {} ELSE {"C17_BacklogBound"}) \cup
   (IF WorkerBound(Q2) THEN {} ELSE {"C17_WorkerBound"}) \cup
   (IF AllocSize(Q2) THEN {} ELSE {"C17_AllocSize"}) \cup
+  (IF BackoffCoversFailures(Q2) THEN {} ELSE {"C17_BackoffCoversFailures"}) \cup
   (IF \A i \in DOMAIN e.calls : e.a = "Submits" /\ e.calls[i].q \in DOMAIN Q /\ Q[e.calls[i].q].active /\ e.calls[i].workers >= 1
                                   /\ e.calls[i].workers <= Q[e.calls[i].q].maxPer
    THEN {} ELSE {"C17_NoSubmitWhenPaused"}) \cup
